@@ -166,7 +166,7 @@ func (p c01) Gen(seed uint64, tier string, idx int) (*Case, bool) {
 		// must not crash, hang or panic
 		c.Reader.FaultAt = src.Intn(len([]rune(c.Src)) + 1)
 		c.Reader.FaultKind = []string{"persistent", "transient", "once-then-eof"}[src.Intn(3)]
-		c.Reader.ErrKind = []string{"", "wraps-eof", "timeout", "unexpected-eof", "uncomparable"}[src.Intn(5)]
+		c.Reader.ErrKind = append([]string{"", "wraps-eof", "timeout", "unexpected-eof", "uncomparable"}, gosim.SentinelKinds...)[src.Intn(5+len(gosim.SentinelKinds))]
 		c.Note += "+read-fault"
 	}
 	c.GenTape = nil // text-level shrinking is used for C01
